@@ -12,9 +12,9 @@ func init() {
 	register(&Property{
 		ID:         "C44",
 		Level:      "other",
-		Technique:  "exhaustive finite case analysis of the path comparator over all 256×256 byte pairs (with uint8 wrap-around), shape rules tying Normalize's sort and prefix elision to it (static)",
-		Explain:    "Decides structural necessary conditions of `Normalize returns a sorted, prefix-free list covering the same paths` (and of Intersect, which merges two normalized lists with the same predicates): (1) lessPath decides on the first differing byte by `(x[i]-K) < (y[i]-K)` in uint8 arithmetic; evaluated for all 65280 pairs of distinct bytes this is a strict total order (exactly one direction holds) in which the path separator K = '.' is the minimum, and a proper prefix sorts before its extensions (`len(x) < len(y)` on a common prefix). With '.' minimal every extension `p.q` of a path p sorts after p and before any other string starting with p, which is what makes comparing only with the last kept path sufficient; (2) normalizePaths sorts with lessPath and elides a path exactly when hasPathPrefix(path, last kept path); (3) hasPathPrefix is `HasPrefix && (equal length || next byte is the same separator)`, so `ab` is not taken for a sub-path of `a`; (4) path validation (New/Append/IsValid) applies the rule that a group is named by its message name only to group-like fields, so every DELIMITED message field stays reachable.",
-		NotCovered: "idempotence and coverage equality on concrete path lists; Union/Intersect results on values; New/Append/IsValid against message descriptors.",
+		Technique:  "exhaustive finite case analysis of the path comparator over all 256×256 byte pairs (with uint8 wrap-around), shape rules tying Normalize's sort and prefix elision to it; swap-invariance of the merge cases; linear-form rule for rangeFields (static)",
+		Explain:    "Decides structural necessary conditions of `Normalize returns a sorted, prefix-free list covering the same paths` (and of Intersect, which merges two normalized lists with the same predicates): (1) lessPath decides on the first differing byte by `(x[i]-K) < (y[i]-K)` in uint8 arithmetic; evaluated for all 65280 pairs of distinct bytes this is a strict total order (exactly one direction holds) in which the path separator K = '.' is the minimum, and a proper prefix sorts before its extensions (`len(x) < len(y)` on a common prefix). With '.' minimal every extension `p.q` of a path p sorts after p and before any other string starting with p, which is what makes comparing only with the last kept path sufficient; (2) normalizePaths sorts with lessPath and elides a path exactly when hasPathPrefix(path, last kept path); (3) hasPathPrefix is `HasPrefix && (equal length || next byte is the same separator)`, so `ab` is not taken for a sub-path of `a`; (4) path validation (New/Append/IsValid) applies the rule that a group is named by its message name only to group-like fields, so every DELIMITED message field stays reachable. Further: Intersect's two-cursor merge walks only lists last assigned from normalizePaths and its cases are invariant under exchanging the lists; Union/Intersect return normalizePaths(...); rangeFields keeps the separator in the remainder so the exit test cannot be taken right after one (linear form), applies f before the exit test and removes exactly one separator; numValidPaths applies the group naming rule only to group-like fields (found D22).",
+		NotCovered: "idempotence and coverage equality on concrete path lists; Union/Intersect results on values; resolution of path segments against concrete descriptors beyond the group-naming clause.",
 		Quick:      all("./types/known/fieldmaskpb"),
 		Thorough:   all("./..."),
 		Run: func(c *Ctx) {
